@@ -25,6 +25,16 @@
 #include "util/status.h"
 #include "C07/ref.h"
 
+/* VP_MODEL_DESTROY: table/iterator.c's ldb_iter_destroy (cleanup list walk and
+   two free()s per data iterator) is below the unit; the multi-step queries
+   model it by vp_arr_iter_destroy (runs the child's clear() only).  Done with
+   the preprocessor because goto-instrument --replace-calls expands all
+   function pointers before they can be restricted.  The native replay and
+   the scan obligations use the real function. */
+#if defined(VP_MODEL_DESTROY) && !defined(VP_REPLAY)
+#define ldb_iter_destroy vp_arr_iter_destroy
+#endif
+
 /* unit under test, included to call its static v-table functions directly */
 #include "table/two_level_iterator.c"
 
@@ -289,7 +299,7 @@ harness(void) {
 
 #if VP_MODE == 0
   {
-    int k, op = 0, before = 0, burst = 0, fwd_skip = 0, bwd_skip = 0;
+    int k, op = 0, before = 0, burst = 0, fwd_skip = 0, bwd_skip = 0, remembered = 0;
     uint8_t t[1];
 
     for (k = 0; k < VP_K; k++) {
@@ -308,6 +318,9 @@ harness(void) {
         if (op == VP_OP_FIRST && vp_cur >= 0) fwd_skip = 1;
         if (op == VP_OP_LAST && vp_cur >= 0) bwd_skip = 1;
       }
+
+      if (vp_saved != LDB_OK && vp_held >= 0 && vp_B[vp_held]->status == LDB_OK)
+        remembered = 1;
     }
 
     if (vp_cur >= 0) {
@@ -336,7 +349,7 @@ harness(void) {
     if (vp_any_error && vp_I.status == LDB_OK)
       VP_WITNESS("block-error-reported");
 #if VP_TOTAL > 0
-    if (vp_saved != LDB_OK && vp_held >= 0 && vp_B[vp_held]->status == LDB_OK)
+    if (remembered)
       VP_WITNESS("error-of-released-block-remembered");
 #endif
   }
